@@ -40,6 +40,11 @@ func replay(c *vlib.Check, path string, b []byte, err error) {
 		if json.Unmarshal(f.Witness.Scenario, &s) == nil {
 			runDrvScenario(c, s)
 		}
+	case "handshake-rdma":
+		var s hsScenario
+		if json.Unmarshal(f.Witness.Scenario, &s) == nil {
+			runHSScenario(c, s)
+		}
 	case "drivermem":
 		var s dmScenario
 		if json.Unmarshal(f.Witness.Scenario, &s) == nil {
@@ -72,6 +77,7 @@ func main() {
 	nP := c.N(1200, 12000)
 	nD := c.N(1500, 12000)
 	nM := c.N(600, 8000)
+	nH := c.N(400, 4000)
 
 	// the canonical battery runs first and sequentially, so that the witness
 	// kept for a key is the canonical reproducer whenever it reproduces
@@ -83,6 +89,17 @@ func main() {
 	}
 	for _, s := range canonicalMem() {
 		runMemScenario(c, s)
+	}
+	for _, s := range canonicalHS() {
+		runHSScenario(c, s)
+	}
+	// development aid: C19_ONLY_HS=canon|all runs the handshake-with-RDMA part alone; never "held"
+	if v := os.Getenv("C19_ONLY_HS"); v != "" {
+		if v == "all" {
+			hb := c.Rand("handshake-rdma")
+			vlib.Parallel(nH, 0, func(i int) { runHSScenario(c, genHSScenario(hb.ForkN("s", i), i)) })
+		}
+		c.Finish(vlib.FinishOpts{Rule: "handshake-with-RDMA part only (development aid, never 'held')", MinNontrivial: 1 << 30})
 	}
 	// development aid: C19_ONLY_MEM=canon runs the memory layer's canonical battery alone,
 	// C19_ONLY_MEM=all also its generated scenarios; such a run never reports "held"
@@ -108,14 +125,21 @@ func main() {
 	for i := 0; i < nM; i++ {
 		dm = append(dm, genMemScenario(mbase.ForkN("s", i), i))
 	}
-	vlib.Parallel(len(pm)+len(dr)+len(dm), 0, func(i int) {
+	var hs []hsScenario
+	hbase := c.Rand("handshake-rdma")
+	for i := 0; i < nH; i++ {
+		hs = append(hs, genHSScenario(hbase.ForkN("s", i), i))
+	}
+	vlib.Parallel(len(pm)+len(dr)+len(dm)+len(hs), 0, func(i int) {
 		switch {
 		case i < len(pm):
 			runPMCScenario(c, pm[i])
 		case i < len(pm)+len(dr):
 			runDrvScenario(c, dr[i-len(pm)])
-		default:
+		case i < len(pm)+len(dr)+len(dm):
 			runMemScenario(c, dm[i-len(pm)-len(dr)])
+		default:
+			runHSScenario(c, hs[i-len(pm)-len(dr)-len(dm)])
 		}
 	})
 	c.Finish(vlib.FinishOpts{
@@ -125,8 +149,12 @@ func main() {
 			"driver memory scenario = (2-4 GPUs of 3-16 pages that are full or nearly full, default or buddy allocator, 1-2 processes, 1-4 requests of 1-3 pages, " +
 			"application calls AllocateMemory / FreeMemory / Remap / write before, inside (before re-homing, while each copy is outstanding) and after every migration window, " +
 			"copy done by the fake CP in a byte-addressed fake memory at a random moment of the window, every GPU filled to the last frame at the end); " +
+			"handshake-with-RDMA scenario = (2-3 GPUs, each a real rdma.Comp + real PageMigrationController on one ideal or hostile memory, one inter-GPU fabric with latency 2-3000 cycles, " +
+			"jitter and bounded occupancy, fake L1s issuing remote loads / stores with unique non-overlapping payloads to the page that migrates, timed around the start of the sequence, " +
+			"1-3 rounds of drain all -> copy -> restart all, chains A->B->C, accesses to the new frame after the round); " +
 			"non-trivial = PMC scenario with >= 2 checked migrations of which one arrived while the controller was migrating, " +
 			"or one driver handshake whose five stages and page-table post-condition were all checked, " +
+			"or one handshake-with-RDMA round that started with a remote store to the page in flight and whose contents and ordering rules were checked, " +
 			"or one driver memory scenario in which every request was answered, an allocation on the source GPU inside a window went past the frames that were free " +
 			"when the page was re-homed (= would receive a prematurely released source frame) and all contents were compared",
 		Assumptions: []string{
@@ -136,6 +164,12 @@ func main() {
 			"fake command processors answer every handshake command exactly once after a random delay; CurrAccessingGPUs is non-empty and duplicate-free and contains the host GPU, as akita's MMU builds it",
 			"the driver's engine is run directly (serial engine); Driver.Run is not called",
 			"order 'reply to MMU after the restart acknowledgements' (DESIGN) is counted, not judged: the property text does not state it",
+			"handshake with RDMA engines: the stand-in for driver + command processor drains every engine, waits for every DrainRsp, asks the destination's controller for the copy, waits for its completion, restarts every engine " +
+				"(the shootdown has no counterpart here: there are no TLBs; its place is a seeded hold); the L1s are not stopped by the harness: what an engine has not accepted when it is paused waits at its port and is delivered after the restart to the frame it addresses (old frame included), which is not judged",
+			"handshake with RDMA engines: judged are (a) destination frame at completion == source frame at the copy request, (b) every store an engine forwarded before the copy request is in the destination frame, " +
+				"(c) no transaction to the page open at any engine between copy request and completion, (d) one completion per request, every round finishes, every L1 request answered once, every acknowledged store in the memory it addressed at the end; " +
+				"accesses never overlap, so each byte has at most one writer besides the copy",
+			"handshake with RDMA engines: the fabric is transparent (routes by destination port, keeps the order of one sender-receiver pair, ticks after the components of a cycle like akita's connections); controllers and engines share it",
 			"driver memory layer: application calls are made on the engine goroutine between two component ticks (Driver.Run is not called); the application never frees, remaps or writes a page that a pending request names; " +
 				"it only issues calls that succeed on the unchanged allocator, plus one-page AllocateMemory calls on a GPU it believes full (answered 'out of memory' or with a frame, both accepted)",
 			"driver memory layer: a source frame is protected from the moment the driver takes the request until it takes the acknowledgement of that page's copy; " +
@@ -145,33 +179,43 @@ func main() {
 		},
 		MinNontrivial: 60,
 		MinCounters: map[string]int64{
-			"pmc_migrations_checked":                               200,
-			"pmc_chunks_checked":                                   5000,
-			"pmc_64k_pages":                                        3,
-			"pmc_requests_arrived_during_migration":                40,
-			"pmc_concurrent_disjoint_migrations":                   5,
-			"pmc_mem_stalls":                                       100,
-			"pmc_ctrl_stalls":                                      20,
-			"drv_handshakes_checked":                               200,
-			"drv_pages_checked":                                    200,
-			"drv_requests_queued_during_migration":                 20,
-			"drv_mem_windows_default":                              80,
-			"drv_mem_windows_buddy":                                80,
-			"drv_mem_allocs_in_window":                             400,
-			"drv_mem_allocs_in_window_on_source":                   250,
-			"drv_mem_allocs_in_window_on_destination":              40,
-			"drv_mem_allocs_in_window_on_full_gpu":                 150,
-			"drv_mem_allocs_in_window_on_exhausted_source_default": 100,
-			"drv_mem_allocs_in_window_on_exhausted_source_buddy":   100,
-			"drv_mem_windows_with_free":                            100,
-			"drv_mem_frees_in_window":                              100,
-			"drv_mem_remaps_in_window":                             10,
-			"drv_mem_writes_in_window":                             300,
-			"drv_mem_frames_handed_out_checked":                    2000,
-			"drv_mem_probes_answered_out_of_memory":                200,
-			"drv_mem_migrated_pages_compared":                      500,
-			"drv_mem_pages_compared":                               5000,
-			"drv_mem_invariant_evaluations":                        10000,
+			"pmc_migrations_checked":                                    200,
+			"pmc_chunks_checked":                                        5000,
+			"pmc_64k_pages":                                             3,
+			"pmc_requests_arrived_during_migration":                     40,
+			"pmc_concurrent_disjoint_migrations":                        5,
+			"pmc_mem_stalls":                                            100,
+			"pmc_ctrl_stalls":                                           20,
+			"drv_handshakes_checked":                                    200,
+			"drv_pages_checked":                                         200,
+			"drv_requests_queued_during_migration":                      20,
+			"hs_rounds_checked":                                         300,
+			"hs_drains_with_remote_write_to_page_in_flight":             150,
+			"hs_drains_with_remote_read_to_page_in_flight":              100,
+			"hs_drains_with_write_on_link_longer_than_drain_round_trip": 80,
+			"hs_scenarios_link_latency_above_drain_round_trip":          80,
+			"hs_stores_to_page_before_copy_checked":                     500,
+			"hs_requests_held_back_by_pause":                            300,
+			"hs_requests_forwarded_after_restart":                       300,
+			"hs_acknowledged_stores_found_in_memory":                    1500,
+			"hs_fabric_sender_waits":                                    1000,
+			"drv_mem_windows_default":                                   80,
+			"drv_mem_windows_buddy":                                     80,
+			"drv_mem_allocs_in_window":                                  400,
+			"drv_mem_allocs_in_window_on_source":                        250,
+			"drv_mem_allocs_in_window_on_destination":                   40,
+			"drv_mem_allocs_in_window_on_full_gpu":                      150,
+			"drv_mem_allocs_in_window_on_exhausted_source_default":      100,
+			"drv_mem_allocs_in_window_on_exhausted_source_buddy":        100,
+			"drv_mem_windows_with_free":                                 100,
+			"drv_mem_frees_in_window":                                   100,
+			"drv_mem_remaps_in_window":                                  10,
+			"drv_mem_writes_in_window":                                  300,
+			"drv_mem_frames_handed_out_checked":                         2000,
+			"drv_mem_probes_answered_out_of_memory":                     200,
+			"drv_mem_migrated_pages_compared":                           500,
+			"drv_mem_pages_compared":                                    5000,
+			"drv_mem_invariant_evaluations":                             10000,
 		},
 	})
 }
